@@ -839,6 +839,9 @@ def _initialize_aggregation(
     if _is_arg_reduction(agg):
         # this allows us to unravel_index easily. we have to do that nearly every time.
         agg.fill_value["numpy"] = (0,)
+        # the indices must stay integers until they are unraveled, even when the final dtype
+        # is floating (e.g. fill_value=np.nan); the cast to the final dtype happens at the end.
+        agg.dtype["numpy"] = (np.dtype(np.intp),)
     else:
         agg.fill_value["numpy"] = (agg.fill_value[func],)
 
